@@ -311,9 +311,9 @@ def exActs_R_R_R : List SAction :=
   [.poll, .poll, .drop 0, .poll, .poll, .drop 2, .interrupt, .drop 1, .poll, .dropStream, .drop 3]
 
 /-- a plain stream on the diamond with a real conflict (0 writes / 3 reads resource 7): the run shows
-    the 11 events of `exEvs_R_R_R`, 24 predicate instances are evaluated on them, all hold -/
+    the 11 events of `exEvs_R_R_R`, 26 predicate instances are evaluated on them, all hold -/
 example : sObsEvents exCtx_R_R_R.c (sinit exCtx_R_R_R.c) exActs_R_R_R = exEvs_R_R_R ∧
-    (spredRun exCtx_R_R_R {} exEvs_R_R_R).2.length = 24 ∧
+    (spredRun exCtx_R_R_R {} exEvs_R_R_R).2.length = 26 ∧
     ∀ n ∈ (spredRun exCtx_R_R_R {} exEvs_R_R_R).2, n.ok = true := by
   have hev : sObsEvents exCtx_R_R_R.c (sinit exCtx_R_R_R.c) exActs_R_R_R = exEvs_R_R_R := by decide
   have hsome : (srun exCtx_R_R_R.c true (sinit exCtx_R_R_R.c) exActs_R_R_R).isSome = true := by decide
